@@ -165,7 +165,14 @@ def _run(scn, w, res):
             continue
         o, cls = objs[who], scn["classes"][who]
         before_enter = _snap(radio)
-        o.__enter__()
+        try:
+            o.__enter__()
+        except SimAbort:
+            raise
+        except Exception as e:
+            res.add("restore", {"kind": "enter_raised", "cls": cls, "exc": type(e).__name__},
+                    "%s #%d: entering its block raised %r" % (cls, who, e))
+            break
         got = _snap(radio)
         if before_enter != last[who]:
             foreign_change[who] = True
@@ -194,7 +201,13 @@ def _run(scn, w, res):
             except (ValueError, IndexError, NotImplementedError):
                 pass
         last[who] = _snap(radio)
-        o.__exit__(None, None, None)
+        try:
+            o.__exit__(None, None, None)
+        except SimAbort:
+            raise
+        except Exception as e:
+            res.add("exit", {"kind": "exit_raised", "cls": cls, "exc": type(e).__name__}, "%s #%d: leaving its block raised %r" % (cls, who, e))
+            break
         if radio.pwr_up or radio.ce:
             res.add("exit", {"kind": "not_powered_down", "cls": cls}, "after __exit__: PWR_UP=%d CE=%d" % (radio.pwr_up, radio.ce))
             break
